@@ -99,7 +99,7 @@ class Gen:
                  probe: bool = False, allow_module_state: bool = False, loopcontrols: bool = False,
                  max_depth: int = 3, size: int = 6, compile_bias: bool = False,
                  env_globals: bool = False, template_globals: bool = False, stream: str = "w",
-                 native: bool = False, pair_den: int = 3, debug_ext: bool = False) -> None:
+                 native: bool = False, pair_den: int = 3, debug_ext: bool = False, i18n: bool = False) -> None:
         self.tape = tape
         self.sx = syntax
         self.is_async = is_async
@@ -112,6 +112,7 @@ class Gen:
         self.env_globals = env_globals  # environment globals gn (int) and gf (callable; awaitable in async mode)
         self.template_globals = template_globals  # template-level global tg passed to get_template(globals=...)
         self.stream = stream
+        self.i18n = i18n  # jinja2.ext.i18n with newstyle callables and a translating catalog
         self.debug_ext = debug_ext  # jinja2.ext.debug is loaded: {% debug %} dumps the context with pprint (repr of the data)
         self.pair_den = pair_den  # 1 in pair_den modules gets the eval-context macro pair
         self.native = native  # NativeEnvironment: block-set literals become containers the template may mutate
@@ -126,6 +127,7 @@ class Gen:
         self.cur_template = "main"
         self.inc_uses_lv = False
         self.pair: tuple[str, str] | None = None
+        self.both: str | None = None
 
     # -- helpers -------------------------------------------------------------
     def d(self, n: int) -> int:
@@ -309,6 +311,7 @@ class Gen:
                 "lo|selectattr('a')|list|length|string",
                 "lo|groupby('a')|map('first')|join",
                 "lo|unique(attribute='a')|list|length|string",
+                "lo|tojson(indent=2)",
                 "l2|map('upper')|join",
                 "l1|select('odd')|join",
                 "l1|reject('gt', 1)|join",
@@ -557,6 +560,8 @@ class Gen:
             2 if self.env_globals and sc.in_loop else (1 if self.env_globals else 0),  # 23 set + context-passing global reading it back
             2 if self.have_mod and self.cur_template not in ("mod", "inc") else 0,  # 24 print / include the module template itself
             1 if self.debug_ext and not sc.closed else 0,  # 25 {% debug %}
+            0 if sc.closed or self.probe else 1,  # 26 a copy of a data list (|list) that the template then changes
+            2 if self.i18n and not sc.closed else 0,  # 27 {% trans %} with a variable
         ]
         k = self.tape.weighted(weights, self.stream)
         P = self.prog
@@ -681,6 +686,19 @@ class Gen:
                 # the block changes the eval context of the module's long-lived context while it runs (KF-C37-1)
                 P.tags.add("module_eval_ctx")
             return self.tag(f"autoescape {self.pick(['false', 'true'])}") + self.body(Scope(sc), depth + 1) + self.tag("endautoescape")
+        if k == 26:
+            P.feat("list_copy_mutated")
+            v = self.fresh("lc")
+            src_ = self.pick(["l1", "l2", "gd.k2", "l0"] if self.env_globals else ["l1", "l2", "l0"])
+            return self.tag(f"set {v} = {src_}|list") + self.var(f"{v}.append({self.e_int(sc, 1)}) or {v}|length")
+        if k == 27:
+            P.feat("trans_block")
+            v = self.fresh("tv")
+            e = self.e_any(sc)
+            if self.chance(1, 3):
+                return (self.tag(f"trans {v}={e}, n={self.e_int(sc, 1)}") + "one thing " + self.var(v)
+                        + self.tag("pluralize n") + self.var("n") + " things " + self.var(v) + self.tag("endtrans"))
+            return self.tag(f"trans {v}={e}") + "some text " + self.var(v) + " and more" + self.tag("endtrans")
         if k == 25:
             P.feat("debug_tag")
             return self.tag("debug")
@@ -873,6 +891,14 @@ class Gen:
             self.mod_exports.append((a_, "macro", 1))
             self.mod_exports.append((b_, "macro", 1))
             self.pair = (a_, b_)
+        elif self.env_globals and self.chance(1, 4):
+            # a plain macro that emits markup around a data call: whether its result is wrapped as safe is decided
+            # per CALL from the caller's eval context, and callers with different escaping share the Macro object
+            self.prog.feat("module_macro_called_under_both_escaping_modes")
+            c_ = self.fresh("mm")
+            parts.append(self.tag(f"macro {c_}(q)") + "<b>" + self.var("gf(q)") + "&</b>" + self.tag("endmacro"))
+            self.mod_exports.append((c_, "macro", 1))
+            self.both = c_
         if self.chance(1, 2):
             v = self.fresh("mv")
             parts.append(self.tag(f"set {v} = {self.e_int(sc, 1)}"))
@@ -923,15 +949,20 @@ class Gen:
         return self.tag(f"from 'mod' import {names}{ctx}")
 
     def _pair_calls(self) -> str:
-        """Calls of both macros of the eval-context pair through the names the current importer sees."""
-        if self.pair is None:
-            return ""
+        """Calls of the directed module macros through the names the current importer sees."""
         names = {n.rsplit(".", 1)[-1]: n for n, k, _a in self.mod_exports if k == "macro"}
-        a_, b_ = names.get(self.pair[0]), names.get(self.pair[1])
-        if not a_ or not b_:
-            return ""
-        x, y = self.var(f"{a_}({self.d(4)})"), self.var(f"{b_}({self.d(4)})")
-        return (x + y) if self.chance(1, 2) else (y + x)
+        out = ""
+        if self.pair is not None:
+            a_, b_ = names.get(self.pair[0]), names.get(self.pair[1])
+            if a_ and b_:
+                x, y = self.var(f"{a_}({self.d(4)})"), self.var(f"{b_}({self.d(4)})")
+                out += (x + y) if self.chance(1, 2) else (y + x)
+        c_ = names.get(self.both) if self.both else None
+        if c_:
+            # the same macro object called under both escaping modes by one template
+            out += (self.var(f"{c_}({self.d(4)})") + self.tag(f"autoescape {self.pick(['true', 'false'])}")
+                    + self.var(f"{c_}({self.d(4)})") + self.tag("endautoescape"))
+        return out
 
     def gen_inc(self) -> str:
         self.cur_template = "inc"
